@@ -132,3 +132,81 @@ def enumerate_results(m: int, n: int, h: int, r0: int, f0: int) -> bool:
     if len(seen) != 3**m * 2**n:
         return xs.fail(f"{len(seen)} distinct combinations for m={m} rc keys, n={n} fc keys; expected {3**m * 2**n}", m=m, n=n, h=h, r0=r0, f0=f0)
     return True
+
+
+# =====================================================================================================================
+# tree-based extraction, with and without package / time-condition resolution; union over composition
+# =====================================================================================================================
+import re as _re
+
+from ahbicht.expressions.condition_expression_parser import extract_categorized_keys
+
+from vf import detloop as _detloop
+from vf import env as _env
+
+T_LO = 0
+T_HI = 1
+_TCASES = []
+PKG_TABLE = {"1P": "[10] U [501]", "2P": "[UB3] O [13]", "3P": "[11] U [12][901]"}
+
+
+def tree_cases():
+    if _TCASES:
+        return _TCASES
+    from vf.harness import resolve_harness
+
+    resolve_harness.LEVEL = 0
+    base = [c for c in resolve_harness.cases()][::2]
+    base += ["[100]U([2]U([53]O[4]))[999][502]U[3P]", "[2] U [1] U [2]", "Muss [7] O [7] Soll [902][7] Kann", "[UB3] O [UB1] U [2P]"]
+    _TCASES.extend(base)
+    return _TCASES
+
+
+def _expected_extract(text, flags):
+    """from the text alone: (rc, hints, fc, packages, time conditions) — condition keys unique and ascending"""
+    do_pkg, do_time = bool(flags & 1), bool(flags & 2)
+    from vf.harness.resolve_harness import substitute
+
+    sub = substitute(text, PKG_TABLE, do_pkg, do_time)
+    keys = sorted({k for k in _re.findall(r"\[(\d+)\]", sub)}, key=int)
+    rc = [k for k in keys if cat(k) == "rc"]
+    return {
+        "rc": rc,
+        "hint": [k for k in keys if cat(k) == "hint"],
+        "fc": [k for k in keys if cat(k) == "fc"],
+        "pkg": sorted(set(_re.findall(r"\[(\d+P)(?:\d+\.\.\d+)?\]", sub))),
+        "time": sorted(set(_re.findall(r"\[(UB[123])\]", sub))),
+    }
+
+
+def extract_tree(idx: int, flags: int, flags_before: int) -> bool:
+    """
+    pre: T_LO <= idx < T_HI and 0 <= flags < 4 and 0 <= flags_before < 5
+    post: _
+    """
+    idx, flags, fb = xs.pick(idx, T_LO, T_HI), xs.pick(flags, 0, 4), xs.pick(flags_before, 0, 5)
+    with xs.nt():
+        text = tree_cases()[idx]
+    _env.setup(packages=dict(PKG_TABLE))
+    from vf.harness import cache_harness
+
+    cache_harness.setup()  # the REAL lru_cache (CrossHair would bypass it): an earlier extraction must not leak through it
+    d = dict(idx=idx, flags=flags, flags_before=flags_before)
+
+    def call(fl):
+        return _detloop.run(extract_categorized_keys(text, resolve_packages=bool(fl & 1), replace_time_conditions=bool(fl & 2)))
+
+    try:
+        if fb < 4:
+            call(fb)  # an earlier extraction of the same expression with other flags must not influence this one
+        x = call(flags)
+    except Exception as e:  # pylint:disable=broad-except
+        xs.reached()
+        return xs.fail(f"extract_categorized_keys('{text}', flags={flags}) raised {type(e).__name__}: {e}", **d)
+    xs.reached()
+    with xs.nt():
+        want = _expected_extract(text, flags)
+    got = {"rc": list(x.requirement_constraint_keys), "hint": list(x.hint_keys), "fc": list(x.format_constraint_keys), "pkg": sorted(x.package_keys), "time": sorted(x.time_condition_keys)}
+    if got != want:
+        return xs.fail(f"extract_categorized_keys('{text}', resolve_packages={bool(flags & 1)}, replace_time_conditions={bool(flags & 2)}{'' if fb == 4 else f', after an extraction with flags {fb}'}) = {got}, from the text: {want}", **d)
+    return True
